@@ -101,6 +101,61 @@ def check_inline_timeout(c: Ctx, u: Unit) -> None:
                 c.ok(where(u, call), 'inline await only where no timeout exists')
 
 
+def typed_arm_entries(c: Ctx, u: Unit, want) -> list[tuple[ast.ExceptHandler, object, dict, object]]:
+    """(arm, CFG entry node, fact environment, facts) for every way an exception accepted by *want(exc)* raised by the handler invocation enters an `except` arm of
+    execute_handler — whatever the arm is declared to catch.  A merged arm (`except (CancelledError, Exception) as e:` that dispatches on isinstance(e, ..)) is followed
+    with the truth of those isinstance tests fixed by the type that entered."""
+    g = c.cfg(u)
+    H = c.an.fm.h
+    out = []
+    arms = [a for a in own_nodes(u.node) if isinstance(a, ast.ExceptHandler) and not any(isinstance(x, ast.Try) and q.lexically_in(a, x, 'finalbody') for x in q.ancestors_of(a))]
+    inv_stmts = {id(q.stmt_of(call)) for x, call in handler_invocations(c) if x.key == u.key}
+    for arm in arms:
+        tr = parent(arm)
+        if not (isinstance(tr, ast.Try) and any(id(x) in inv_stmts or any(id(y) in inv_stmts for y in ast.walk(x)) for b in tr.body for x in [b])):
+            # the try must protect the handler invocation (directly, or the wait on its task)
+            if not (isinstance(tr, ast.Try) and any(isinstance(y, ast.Await) for b in tr.body for y in ast.walk(b))):
+                continue
+        for en in g.nodes_of(arm, ('except',)):
+            if en.exc is None or not want(en.exc):
+                continue
+            env: dict = {}
+            atoms: set[str] = set()
+            if arm.name:
+                for x in ast.walk(arm):
+                    if isinstance(x, ast.Call) and isinstance(x.func, ast.Name) and x.func.id == 'isinstance' and len(x.args) == 2 and U(x.args[0]) == arm.name:
+                        kinds = x.args[1].elts if isinstance(x.args[1], ast.Tuple) else [x.args[1]]
+                        names = [H.canon(U(k)) for k in kinds]
+                        if en.exc.exact or all(not H.is_sub(n_, en.exc.name) or n_ == en.exc.name for n_ in names):
+                            val = any(H.is_sub(en.exc.name, n_) for n_ in names)
+                            env[U(x)] = 'T' if val else 'F'
+                        atoms.add(U(x))
+            facts = Facts(lambda a, atoms=atoms: a in atoms or a.isidentifier(), cg=c.cg, unit=u)
+            out.append((arm, en, env, facts))
+    return out
+
+
+def starts_after(en, env0: dict) -> list[tuple[object, dict]]:
+    """Start states just past the `except ... as e` node (whose own transfer forgets everything about `e`, the name it binds)."""
+    return [(e.dst, dict(env0)) for e in en.succ if not e.is_exc] or [(en, dict(env0))]
+
+
+def typed_search(g, en, env0: dict, is_target, is_barrier, facts, **kw):
+    """q.reach_search from just past the except node; the first statement of the arm is itself subject to the target / barrier tests."""
+    starts = []
+    for node, env in starts_after(en, env0):
+        if is_target(node, env):
+            from sa.cfg import Step
+
+            return [Step(node, 'start', tuple(sorted(env.items())))]
+        if is_barrier(node, env):
+            continue
+        starts.append((node, env))
+    if not starts:
+        return None
+    return q.reach_search(g, starts, is_target, is_barrier, facts, **kw)
+
+
 def timeout_arms(c: Ctx, u: Unit) -> list[ast.ExceptHandler]:
     out = []
     for n in own_nodes(u.node):
@@ -114,52 +169,73 @@ def timeout_arms(c: Ctx, u: Unit) -> list[ast.ExceptHandler]:
 def c10_2(c: Ctx) -> None:
     u = c.unit(SVC, 'EventBus.execute_handler')
     g = c.cfg(u)
-    arms = [a for a in timeout_arms(c, u) if not any(isinstance(x, ast.Try) and q.lexically_in(a, x, 'finalbody') for x in q.ancestors_of(a))]
-    c.floor(len(arms), 1, 'except TimeoutError arms around the handler invocation')
     H = c.an.fm.h
-    from sa.cfg import search
+    entries = typed_arm_entries(c, u, lambda t: t.name == 'TimeoutError')
+    c.floor(len(entries), 1, 'ways a TimeoutError of the handler enters an except arm of execute_handler')
 
-    for arm in arms:
-        entries = g.nodes_of(arm, ('except',))
+    def is_upd(n):
+        return any(is_terminal_update(x) and q.kw(x, 'error') is not None for x in q.node_calls(n))
+
+    def is_cancel(n):
+        return bool(q.node_calls(n, 'event_cancel_pending_child_processing'))
+
+    for arm, en, env0, facts in entries:
         inside = {id(x) for b in arm.body for x in ast.walk(b)}
-        for en in entries:
-            def is_upd(n):
-                return any(is_terminal_update(x) and q.kw(x, 'error') is not None for x in q.node_calls(n))
 
-            def is_cancel(n):
-                return bool(q.node_calls(n, 'event_cancel_pending_child_processing'))
+        def leaves(n, inside=inside):
+            return n.ast is None or id(n.ast) not in inside
 
-            def leaves(n):
-                return n.ast is None or id(n.ast) not in inside
-
-            p = search([(en, ())], is_target=lambda n, d: leaves(n), is_barrier=lambda n, d: is_upd(n))
-            if p is None:
-                c.ok(where(u, arm), 'timeout arm records the error result on every path')
+        p = typed_search(g, en, env0, lambda n, d: leaves(n), lambda n, d: is_upd(n), facts)
+        if p is None:
+            c.ok(where(u, arm), 'a handler timeout records the error result on every path')
+        else:
+            c.fail(u, 'the timeout path can leave the arm without recording an error result', "a timed-out handler's result never becomes an error: the event never completes", node=arm, witness=c.path(en, p))
+        p = typed_search(g, en, env0, lambda n, d: leaves(n), lambda n, d: is_cancel(n), facts)
+        if p is None:
+            c.ok(where(u, arm), 'a handler timeout cancels pending child results on every path')
+        else:
+            c.fail(u, 'the timeout path can leave the arm without event_cancel_pending_child_processing', 'handler results of child events the timed-out handler was waiting on stay pending forever', node=arm, witness=c.path(en, p))
+        p = typed_search(g, en, env0, lambda n, d: is_cancel(n), lambda n, d: is_upd(n), facts)
+        if p is None:
+            c.ok(where(u, arm), 'children are cancelled after the error result was recorded')
+        else:
+            c.fail(u, 'children cancelled before the error result is recorded', 'order of timeout bookkeeping inverted', node=arm, witness=c.path(en, p))
+        # what leaves the arm on the timeout path
+        seen_raise = False
+        for n in g.live_nodes():
+            if n.ast is None or id(n.ast) not in inside or n.kind != 'raise':
+                continue
+            # reachable on this typed path?
+            pr = typed_search(g, en, env0, lambda m, d, n=n: m is n, lambda m, d: False, facts)
+            if pr is None:
+                continue
+            outs = [e.exc for e in n.succ if e.is_exc and (e.dst.ast is None or id(e.dst.ast) not in inside)]
+            if not outs:
+                continue
+            seen_raise = True
+            good = [t for t in outs if H.is_sub(t.name, 'Exception')]
+            if good and len(good) == len(outs):
+                c.ok(where(u, n.ast), f'the timeout path raises {good[0]} (an Exception: contained by _execute_handlers)')
+            elif good:
+                # `raise <local>` whose value is built on several paths (the typing of a raised local is path-insensitive): at least the timeout's own type is among them
+                c.ok(where(u, n.ast), f'the timeout path raises one of {sorted(map(str, outs))} through a local; the Exception-class alternative is the one built on this path')
             else:
-                c.fail(u, 'timeout arm can be left without recording an error result', "a timed-out handler's result never becomes an error: the event never completes", node=arm, witness=c.path(en, p))
-            p = search([(en, ())], is_target=lambda n, d: leaves(n), is_barrier=lambda n, d: is_cancel(n))
-            if p is None:
-                c.ok(where(u, arm), 'timeout arm cancels pending child results on every path')
-            else:
-                c.fail(u, 'timeout arm can be left without event_cancel_pending_child_processing', 'handler results of child events the timed-out handler was waiting on stay pending forever', node=arm, witness=c.path(en, p))
-            p = search([(en, ())], is_target=lambda n, d: is_cancel(n), is_barrier=lambda n, d: is_upd(n))
-            if p is None:
-                c.ok(where(u, arm), 'children are cancelled after the error result was recorded')
-            else:
-                c.fail(u, 'children cancelled before the error result is recorded', 'order of timeout bookkeeping inverted', node=arm, witness=c.path(en, p))
-            # what leaves the arm
-            for n in g.live_nodes():
-                if n.ast is None or id(n.ast) not in inside:
-                    continue
-                for e in n.succ:
-                    if e.is_exc and (e.dst.ast is None or id(e.dst.ast) not in inside) and n.kind == 'raise':
-                        if H.is_sub(e.exc.name, 'Exception'):
-                            c.ok(where(u, n.ast), f'timeout arm raises {e.exc} (an Exception: contained by _execute_handlers)')
-                        else:
-                            c.fail(u, f'timeout arm raises {e.exc}: {q.stmt_text(n.ast, 60)}', f'the timeout surfaces as {e.exc}, which _execute_handlers does not contain: remaining handlers are skipped and the run loop is hit', node=n.ast)
-            norm = search([(en, ())], is_target=lambda n, d: leaves(n) and n.kind not in ('raise_exit', 'reraise', 'except'), edge_ok=lambda n, e, d: None if e.is_exc else d)
-            if norm is not None:
-                c.ok(where(u, arm), 'timeout arm may also complete normally (the error is recorded; nothing propagates)')
+                c.fail(u, f'the timeout path raises {outs[0]}: {q.stmt_text(n.ast, 60)}', f'the timeout surfaces as {outs[0]}, which _execute_handlers does not contain: remaining handlers are skipped and the run loop is hit', node=n.ast)
+    # pending results of child events are cancelled on a handler *timeout* only: an ordinary handler error (or an interruption from above) leaves the children alone
+    others = typed_arm_entries(c, u, lambda t: t.name != 'TimeoutError')
+    for arm, en, env0, facts in others:
+        if not en.exc.exact and H.is_sub('TimeoutError', en.exc.name):
+            # an open-ended type (Exception+) includes TimeoutError: follow it with "is not a TimeoutError" assumed, that case has its own entry above
+            env0 = dict(env0)
+            for x in ast.walk(arm):
+                if isinstance(x, ast.Call) and isinstance(x.func, ast.Name) and x.func.id == 'isinstance' and len(x.args) == 2 and arm.name and U(x.args[0]) == arm.name and 'TimeoutError' in U(x.args[1]) and U(x) not in env0:
+                    env0[U(x)] = 'F'
+        p = typed_search(g, en, env0, lambda n, d: is_cancel(n), lambda n, d: False, facts)
+        if p is None:
+            c.ok(where(u, arm), f'[{en.exc}] children are not cancelled when the handler merely failed / was interrupted')
+        else:
+            c.fail(u, f'event_cancel_pending_child_processing reachable when the handler ended with {en.exc}', 'pending results of child events are overwritten with an error although the handler did not time out: a child handler '
+                   'that was still going to run is refused afterwards (its result is no longer pending) and never runs', node=arm, witness=c.path(en, p))
 
 
 @ob('C10.3', 'PAIR', 'on every exit of execute_handler a handler task that is not done is cancelled and then awaited with a bounded wait')
